@@ -494,8 +494,9 @@ def effect_of(prog, classes, finfo):
                         not c.keywords:
                     return freeze(('new', cc.sem,
                                    [term(x) for x in c.args[0].elts]))
-                if cc.sem == 'not' and len(c.args) == 1 and not c.keywords:
-                    return freeze(('new', 'not', [term(c.args[0])]))
+                if cc.sem in ('not', 'ident') and len(c.args) == 1 and \
+                        not c.keywords:
+                    return freeze(('new', cc.sem, [term(c.args[0])]))
                 if cc.sem in ('true', 'false') and not c.args:
                     return ('new', cc.sem, ())
                 raise EffectError('unrecognised constructor call %s in %s'
@@ -528,7 +529,7 @@ def effect_of(prog, classes, finfo):
                     raise EffectError('reducer %s writes state: %s' % (
                         where, ev.text()))
                 continue
-            if ev.sym and ev.sym.startswith('@'):
+            if ev.sym and ev.sym.startswith('SYM_'):
                 d = en.defs.get(ev.sym)
                 if isinstance(d, ast.AST):
                     try:
@@ -643,6 +644,8 @@ def apply_term(t, args):
     if k == 'new':
         if t[1] == 'not':
             return ('not', apply_term(t[2][0], args))
+        if t[1] == 'ident':
+            return apply_term(t[2][0], args)
         if t[1] in ('true', 'false'):
             return (t[1],)
         return (t[1], tuple(apply_term(x, args) for x in t[2]))
